@@ -143,12 +143,14 @@ Section K.
     v3_decode_public O bs = Ok pk -> length bs = 49 /\ length pk = 49 /\ v3_decode_public O pk = Ok pk.
   Proof using L Htag. clear Hnw Hvp Htag'.
     unfold v3_decode_public.
-    destruct (Nat.eqb_spec (length bs) 49); cbn [negb orb]; [|discriminate].
-    destruct (compressed_tag bs); cbn [negb]; [|discriminate].
-    destruct (p384_parse O bs) as [p|] eqn:E; [|discriminate].
+    destruct (Nat.eqb_spec (length bs) 49); cbn [negb]; [|discriminate].
+    destruct bs as [|b0 bs']; [discriminate|].
+    destruct (compressed_tag (b0 :: bs')); cbn [negb]; [|discriminate].
+    destruct (p384_parse O (b0 :: bs')) as [p|] eqn:E; [|discriminate].
     intros H; inversion H; subst p.
     pose proof (p384_parse_len O L _ _ E) as Lp. repeat split; [assumption|assumption|].
-    rewrite Lp, (Htag _ _ E). cbn [Nat.eqb negb orb]. rewrite (p384_parse_canon O L _ _ E). reflexivity.
+    rewrite Lp. cbn [Nat.eqb negb]. destruct pk as [|p0 pk']; [discriminate|].
+    rewrite (Htag _ _ E). cbn [negb]. rewrite (p384_parse_canon O L _ _ E). reflexivity.
   Qed.
 
   Theorem v3_public_wrong_length bs : length bs <> 49 -> v3_decode_public O bs = Err InvalidKey.
@@ -163,14 +165,17 @@ Section K.
     intros H. apply v3_secret_decode_iff in H as (_ & Hpk & ->).
     unfold v3_public_of. destruct (p384_pk O bs) as [pk|] eqn:E; [|congruence].
     exists pk. split; [reflexivity|]. unfold v3_decode_public.
-    rewrite (p384_pk_len O L _ _ E), (Htag' _ _ E). cbn [Nat.eqb negb orb]. rewrite (p384_pk_parses O L _ _ E). reflexivity.
+    rewrite (p384_pk_len O L _ _ E). cbn [Nat.eqb negb].
+    pose proof (p384_pk_len O L _ _ E) as Lpk. destruct pk as [|p0 pk']; [discriminate|].
+    rewrite (Htag' _ _ E). cbn [negb]. rewrite (p384_pk_parses O L _ _ E). reflexivity.
   Qed.
 
   (* the two v3 backends accept exactly the same public keys *)
   Theorem lc_v3_public_agree bs : lc_decode_public O bs = v3_decode_public O bs.
   Proof. clear Hnw Hvp Htag Htag'; try clear L.
     unfold lc_decode_public, v3_decode_public.
-    destruct (negb (Nat.eqb (length bs) 49)); [reflexivity|]. destruct (negb (compressed_tag bs)); reflexivity.
+    destruct (Nat.eqb_spec (length bs) 49) as [E|E]; cbn [negb]; [|reflexivity].
+    destruct bs as [|b0 bs']; [discriminate|]. destruct (negb (compressed_tag (b0 :: bs'))); reflexivity.
   Qed.
 
   (* aws-lc: the two backends agree on acceptance of secret keys (error kinds differ) *)
